@@ -32,11 +32,15 @@ type SnapSpec struct {
 	Jobs int `json:"jobs"` // number of jobs
 	Pad  int `json:"pad"`  // bytes of padding in a variable of each job
 	Kind int `json:"kind"` // which variable types
+	Same int `json:"same_content_as,omitempty"` // tag of an earlier snapshot of this saver whose content this one repeats exactly (the state did not change between two saves)
 }
 
 var fixedTime = time.Date(2021, 5, 4, 3, 2, 1, 123456789, time.UTC)
 
 func buildSnapshot(sp SnapSpec) *store.PersistedData {
+	if sp.Same != 0 {
+		sp.Tag = sp.Same
+	}
 	d := &store.PersistedData{Jobs: make([]store.PersistedJob, 0, sp.Jobs)}
 	for i := 0; i < sp.Jobs; i++ {
 		st := fixedTime.Add(time.Duration(i) * time.Second)
@@ -98,6 +102,16 @@ func generateStore(seed uint64) *Scenario {
 			}
 			tag++
 			prog = append(prog, sp)
+			if g.p(250) {
+				// the same state saved again (nothing changed in between): must be as durable as the first time
+				rep := sp
+				rep.Tag, rep.Same = tag, sp.Tag
+				if sp.Same != 0 {
+					rep.Same = sp.Same
+				}
+				tag++
+				prog = append(prog, rep)
+			}
 		}
 		ss.Savers = append(ss.Savers, prog)
 	}
@@ -120,6 +134,7 @@ type storeRun struct {
 	handed    map[int]string // tag -> canonical content of every snapshot passed to Save so far
 	lastRen   int            // tag of the snapshot most recently renamed into place (0: none)
 	inflight  map[uint64]*inflightSave
+	active    map[int]*bool // tag of a save that has been started and has not returned -> did it run alone so far?
 	failNext  bool
 	saverDone chan saveDone
 	pendDone  []saveDone
@@ -180,9 +195,59 @@ func (r *storeRun) faultHook(point string, ctx []interface{}) error {
 	return nil
 }
 
+// loadCopy loads a copy of the live directory; "" with a reason on failure.
+func (r *storeRun) loadCopy() string {
+	cp := r.dir + "-look2"
+	_ = os.RemoveAll(cp)
+	defer os.RemoveAll(cp)
+	if err := copyDir(r.dir, cp); err != nil {
+		return "<copy failed>"
+	}
+	js, err := store.NewJSONDataStore(cp)
+	if err != nil {
+		return "<" + err.Error() + ">"
+	}
+	d, err := js.Load()
+	if err != nil {
+		return "<" + err.Error() + ">"
+	}
+	return canonData(d)
+}
+
+func (r *storeRun) describe(got string) string {
+	if got == canonData(&store.PersistedData{}) {
+		return "the empty state"
+	}
+	best := 0
+	for tag, c := range r.handed {
+		if c == got && (best == 0 || tag < best) {
+			best = tag
+		}
+	}
+	if best != 0 {
+		return fmt.Sprintf("the content of snapshot %d", best)
+	}
+	if len(got) > 80 {
+		got = got[:80] + "..."
+	}
+	return "something that was never passed to a save: " + got
+}
+
 // checkDisk: the file on disk (or a crash copy of the directory) must load to
 // the snapshot most recently renamed into place — never anything else.
 func (r *storeRun) checkDisk(dir, when string) {
+	if dir == r.dir {
+		// Look at a copy, the way a process started after a kill at this instant would: opening a second store on the
+		// live directory is something only the harness does, and a store that tidies up temporary files when it is
+		// opened would then delete the files of the saves in flight (which hid a seeded change).
+		cp := r.dir + "-look"
+		_ = os.RemoveAll(cp)
+		if err := copyDir(r.dir, cp); err != nil {
+			return
+		}
+		defer os.RemoveAll(cp)
+		dir = cp
+	}
 	js, err := store.NewJSONDataStore(dir)
 	if err != nil {
 		r.violate("r0", "%s: %v", when, err)
@@ -246,6 +311,7 @@ func (r *storeRun) execute() error {
 	defer func() { verifhook.Handler, verifhook.FaultHandler = nil, nil }()
 	r.handed = map[int]string{}
 	r.inflight = map[uint64]*inflightSave{}
+	r.active = map[int]*bool{}
 	r.saverDone = make(chan saveDone, 256)
 
 	type actor struct {
@@ -389,6 +455,11 @@ func (r *storeRun) execute() error {
 				sp := r.ss.Savers[a.idx][k]
 				data := buildSnapshot(sp)
 				r.handed[sp.Tag] = canonData(data)
+				alone := len(r.active) == 0
+				for _, a := range r.active {
+					*a = false
+				}
+				r.active[sp.Tag] = &alone
 				line += fmt.Sprintf(" snapshot %d (%d jobs, %d bytes)", sp.Tag, sp.Jobs, len(r.handed[sp.Tag]))
 				go func() {
 					g := goid()
@@ -487,10 +558,20 @@ func (r *storeRun) execute() error {
 				r.stats.Probes["concurrent_load"]++
 			} else {
 				line += fmt.Sprintf(" [saver%d snapshot %d -> %s]", d.saver, d.tag, orStr(d.err, "ok"))
+				alone := r.active[d.tag] != nil && *r.active[d.tag]
+				delete(r.active, d.tag)
 				if d.err == "" {
 					r.stats.Probes["save_ok"]++
 					if r.lastRen == d.tag {
 						r.stats.Probes["save_ok_and_last"]++
+					}
+					if alone {
+						// "a save that has returned successfully is what the next load returns" - judged from the outside,
+						// for a save no other save overlapped: whatever the store did or skipped, the disk holds this snapshot
+						r.stats.Probes["save_alone_ok"]++
+						if got := r.loadCopy(); got != r.handed[d.tag] {
+							r.violate("r4", "step %d: the save of snapshot %d returned successfully and no other save ran meanwhile, but loading the store now gives %s", r.step, d.tag, r.describe(got))
+						}
 					}
 				} else {
 					r.stats.Probes["save_failed"]++
